@@ -260,7 +260,7 @@ pub fn diff_subjects(
 }
 
 /// Visit one mapping given as bytes.
-pub fn visit_bytes(bytes: &[u8], uni: &Universe, case0: &dyn Fn() -> Value, abuf: &mut Aligned, acc: &mut Acc) {
+pub fn visit_bytes(bytes: &[u8], unis: &[Universe], case0: &dyn Fn() -> Value, abuf: &mut Aligned, acc: &mut Acc) {
     acc.states += 1;
     let size = bytes.len();
     let case = |q: Value, exp: Value, got: Value| -> Value {
@@ -271,7 +271,13 @@ pub fn visit_bytes(bytes: &[u8], uni: &Universe, case0: &dyn Fn() -> Value, abuf
         c["observed"] = got;
         c
     };
-    let r = guarded(|| cur::with_subjects(bytes, abuf, |m, mp, c, _| diff_subjects(uni, m, mp, c, acc, size, &case)));
+    let r = guarded(|| {
+        cur::with_subjects(bytes, abuf, |m, mp, c, _| {
+            for uni in unis {
+                diff_subjects(uni, m, mp, c, acc, size, &case)
+            }
+        })
+    });
     match r {
         Ok(Ok(())) => {}
         Ok(Err(e)) => {
@@ -442,9 +448,9 @@ pub fn run(tier: Tier) -> i32 {
                 acc.transitions += if lines.len() > last_len { (lines.len() - last_len) as u64 } else { 1 };
                 last_len = lines.len();
                 print_file_into(lines, term, &mut ctx.bytes);
-                let uni = Universe::from_ast(lines, sp.wide());
+                let unis = crate::q::universes_for(lines, sp.wide());
                 let bytes = std::mem::take(&mut ctx.bytes);
-                visit_bytes(&bytes, &uni, &|| file_to_json(lines, term), &mut ctx.abuf, acc);
+                visit_bytes(&bytes, &unis, &|| file_to_json(lines, term), &mut ctx.abuf, acc);
                 acc.sample(1, || json!({"scope": sp.name(), "mapping": esc(&bytes)}));
                 ctx.bytes = bytes;
                 acc.count(&format!("states[{}]", sp.name()), 1);
@@ -463,7 +469,7 @@ pub fn run(tier: Tier) -> i32 {
                 match universe_from_bytes(bytes) {
                     None => acc.count("token strings outside the representable domain (skipped) [MS-T]", 1),
                     Some(uni) => {
-                        visit_bytes(bytes, &uni, &|| bytes_case(bytes), &mut abuf, acc);
+                        visit_bytes(bytes, std::slice::from_ref(&uni), &|| bytes_case(bytes), &mut abuf, acc);
                         acc.count("states[MS-T token strings]", 1);
                         if uni.classes.len() >= 2 && !uni.methods.is_empty() {
                             acc.sample(2, || json!({"scope":"MS-T","mapping": esc(bytes)}));
@@ -514,13 +520,13 @@ pub fn recheck(case: &Value) -> Vec<String> {
         "ast" => {
             let (lines, term) = file_from_json(case);
             let bytes = print_file(&lines, term);
-            let uni = Universe::from_ast(&lines, case["wide"].as_bool().unwrap_or(false));
-            visit_bytes(&bytes, &uni, &|| file_to_json(&lines, term), &mut abuf, &mut acc);
+            let unis = crate::q::universes_for(&lines, case["wide"].as_bool().unwrap_or(false));
+            visit_bytes(&bytes, &unis, &|| file_to_json(&lines, term), &mut abuf, &mut acc);
         }
         "bytes" => {
             let bytes = unesc(case["text"].as_str().unwrap_or(""));
             if let Some(uni) = universe_from_bytes(&bytes) {
-                visit_bytes(&bytes, &uni, &|| bytes_case(&bytes), &mut abuf, &mut acc);
+                visit_bytes(&bytes, std::slice::from_ref(&uni), &|| bytes_case(&bytes), &mut abuf, &mut acc);
             }
         }
         "corpus" => {
